@@ -10,7 +10,9 @@
 
    A lazy state is a state of Model/Decl.v plus, per class, whether its specification exists
    yet ([created]).  The record of a class without specification holds what the specification
-   will contain when it is created (declared = [], inherit, no class-object declaration) —
+   will contain when it is created (declared = [] and inherit, or — for a class with an old-style
+   ``__implemented__`` attribute — declared = those interfaces and inherit = None; no class-object
+   declaration) —
    that this is so in every reachable state is a theorem (Proofs/DeclLazy.v [zinv]), as is
    that every call that changes a specification has created it first.
 
@@ -43,7 +45,10 @@ Fixpoint zensure_f (cs : list crec) (fuel : nat) (fl : list bool) (c : cls) : li
       if zcreated fl c then fl
       else match nth_error cs c with
            | None => fl
-           | Some r => upd (fold_left (zensure_f cs f) (c_bases r) fl) c true
+           | Some r =>
+               (* an old-style ``__implemented__`` attribute (inherit = None) is turned into the
+                  specification without looking at the bases *)
+               upd (if c_inherit r then fold_left (zensure_f cs f) (c_bases r) fl else fl) c true
            end
   end.
 Definition zensure (z : zstate) (c : cls) : zstate :=
@@ -80,7 +85,7 @@ Definition pre_ensure (z : zstate) (o : op) : zstate :=
 
 Definition zstep (ev : bool) (g : igraph) (z : zstate) (o : op) : zstate :=
   let z1 := pre_ensure z o in
-  (step ev g (fst z1) o, match o with NewClass _ _ _ => snd z1 ++ [false] | _ => snd z1 end).
+  (step ev g (fst z1) o, match o with NewClass _ _ _ _ => snd z1 ++ [false] | _ => snd z1 end).
 
 (* ---- queries: new state and answer *)
 Definition zq_implemented (g : igraph) (z : zstate) (c : cls) : zstate * list iface :=
